@@ -7,3 +7,11 @@ UNITS = [
                 "ov_info / ov_halfrate_p are the real code (their own units)", "alloca requests checked against the stack budget"],
        note="lapped seek (raw / pcm / page variants share this body): refused before anything happens on an unopened handle; lap data of the OLD link is collected before the seek; fails wherever the plain seek (or the priming) fails, with its code and without splicing; on success exactly one splice, told the old link's channel count / lap size / window and the NEW link's (re-read after the seek, which may have changed link), over the buffer the decoder exposed - so the splice never reads more row pointers than the new link has"),
 ]
+UNITS += [
+  Unit("vf_getlap", ["C03", "C19"], "lib/vorbisfile.c", enforce="_ov_getlap", replace=["_fetch_and_process_packet"], loops="vf_getlap.loops",
+       harness="h_vf_getlap.c", entry="h_vf_getlap", unwindset=["rows_.0:1"], reach=2, kind="B", timeout=600,
+       bound="<= 2 channels (rows are harness-built); lap size 0..4096 (every half short block), sample counts offered by the decoder, number of packets fetched symbolic; all four loops closed by loop contracts",
+       assumed=["pcmout / read / lapout as body-ful stubs after their proved contracts (units blk_pcmout, blk_read, blk_lapout); ASSUMED about lapout: it returns 0 only while the decoder holds no position, impossible once pcmout has delivered samples in this call",
+                "memcpy / memset modelled as range checks + arbitrary destination", "_fetch_and_process_packet by contract (any code <= 1; assumed callee); termination of the collecting loop depends on the data source (not claimed)"],
+       note="lap buffer fill: each copy (pending PCM, later packets, the decoder's overlap half) is clipped to what is still missing, so no store goes past lapsize floats of any channel row; the zero fill (nothing ever decoded) covers exactly the rows; never consumes more from the decoder than it offered; lap data is collected without spanning links"),
+]
